@@ -1,7 +1,8 @@
 
-// ===== appended by /verif (cfg(kani) only): index arithmetic without precondition (C08, C11) =====
-#[cfg(kani)]
-mod verif_kani_idx {
+// ===== appended by /verif (cfg(kani) / cfg(besok_jsonpath_rust_verif) only): index arithmetic without precondition (C08, C11) =====
+#[cfg(any(kani, besok_jsonpath_rust_verif))]
+#[allow(dead_code, unused_imports)]
+pub(crate) mod verif_kani_idx {
     use super::*;
     use crate::query::verif_k::*;
 
@@ -11,10 +12,10 @@ mod verif_kani_idx {
         Box::leak(Box::new(v))
     }
     // bounded (array length <= 3), idx over the whole I-JSON range: RFC 9535 2.3.3 with pointer identity
-    #[kani::proof]
-    #[kani::stub(alloc::fmt::format, stub_format)]
-    #[kani::unwind(5)]
-    fn index_ijson() {
+    #[cfg_attr(kani, kani::proof)]
+    #[cfg_attr(kani, kani::stub(alloc::fmt::format, stub_format))]
+    #[cfg_attr(kani, kani::unwind(5))]
+    pub(crate) fn index_ijson() {
         let n: usize = kani::any();
         kani::assume(n <= 3);
         let arr = mk_arr(n);
@@ -32,14 +33,24 @@ mod verif_kani_idx {
     }
     // probe: which precondition is necessary?  idx over ALL of i64 — expected to FAIL at i64::MIN (`idx.abs()`):
     // the I-JSON precondition of process_index is needed, and the parser establishes it (validate_range)
-    #[kani::proof]
-    #[kani::stub(alloc::fmt::format, stub_format)]
-    #[kani::unwind(5)]
-    fn index_any_i64_probe() {
+    #[cfg_attr(kani, kani::proof)]
+    #[cfg_attr(kani, kani::stub(alloc::fmt::format, stub_format))]
+    #[cfg_attr(kani, kani::unwind(5))]
+    pub(crate) fn index_any_i64_probe() {
         let n: usize = kani::any();
         kani::assume(n <= 3);
         let doc = K::Arr(mk_arr(n));
         let idx: i64 = kani::any();
         let _ = process_index(Pointer::new(&doc, String::new()), &idx);
+    }
+    /// native replay dispatcher (see kani shim in verif_k)
+    #[cfg(not(kani))]
+    pub(crate) fn replay(name: &str) -> bool {
+        match name {
+            "index_ijson" => index_ijson(),
+            "index_any_i64_probe" => index_any_i64_probe(),
+            _ => return false,
+        }
+        true
     }
 }
